@@ -110,7 +110,12 @@ def judge (req ans : List String) : Option Complaints :=
   | ["format", _, b], ["panic"] => do let b ← unhex b; pure (judgeFormat b none)
   | ["format", _, b], ["ok", txt, same] => do
       let b ← unhex b; let txt ← unhex txt
-      pure (judgeFormat b (some txt) ++ chk (bit same) "C02" "Debug and Display differ")
+      -- `same` is `1` (Debug text identical to the Display text) or `d<hex>`: the Debug text, judged like the Display text
+      -- (C02 asks both to denote the pattern's value, not to be the same text)
+      let dbg ← (if same == "1" then some [] else if same.startsWith "d" then
+                   (unhex (same.drop 1).toString).map (fun d => (judgeFormat b (some d)).map fun (p, w) => (p, "Debug: " ++ w))
+                 else some [("C02", "Debug text missing")])
+      pure (judgeFormat b (some txt) ++ dbg)
   | ["roundtrip", _, b], ["panic"] => do let b ← unhex b; pure (judgeFormat b none)
   | ["roundtrip", t, b], ["ok", txt, back, stable] => do
       let T ← Ty.ofName t; let b ← unhex b; let txt ← unhex txt; let back ← parsePAns back
